@@ -8,7 +8,7 @@ R13.5 outbound future yields the captured request id on every arm
 """
 import re
 from paths import refine_cuts, region_uncovered
-from common import exit_desc, short, field_calls, park_nodes, removal_discharged, derives_from_field
+from common import for_loops, loop_left_early, exit_desc, short, field_calls, park_nodes, removal_discharged, derives_from_field
 import guards
 
 EXPLANATION = ("Obligation-container rules over all MIR CFG paths of RequestResponseProtocol: each request context taken out of "
@@ -246,6 +246,27 @@ def r13_4(ctx, fx):
                    detail="the quantity compared with the maximum must be rooted in the protocol-wide containers %s; roots %s" % (sorted(need), sorted(qs)[:12]))
 
 
+def r13_7(ctx, fx):
+    """loops over request contexts run to completion: in the handlers that settle several requests at once (queued for a dial, active on
+    a closed connection) no `for` loop over them is left by a `break`, and the only early exits from a loop body are error returns.  A
+    request left in a consumed iterator never gets a terminal event."""
+    n = 0
+    for key in sorted(fx.find(r"^protocol::request_response::RequestResponseProtocol::on_(connection_established|connection_closed|dial_failure)::\{closure#0\}$")):
+        fn = fx.fn(key)
+        ctx.bodies.add((fx.cfg, key))
+        for i, lp in enumerate(for_loops(fn)):
+            n += 1
+            w = loop_left_early(fn, lp)
+            ctx.ob("R13.7", "%s/loop#%d-runs-to-completion" % (short(key), i), w is None, site=fn.site(lp[0].node), cfg=fx.cfg,
+                   detail="code after the loop reachable from the loop body without asking the iterator again: %s" % (fn.site(w) if w else None))
+            c, sw, none_l, some_l = lp
+            body = fn.reach([x for x, l in fn.succs(sw[0]) if l in some_l], avoid=[c.node])
+            quiet = [fn.site(x) for x, sh in fn.exits() if x in body and not all(s_ == "residual" or s_.startswith("Err") for s_ in sh)
+                     and x not in fn.reach([y for y, l in fn.succs(sw[0]) if l in none_l])]
+            ctx.ob("R13.7", "%s/loop#%d-no-silent-return-inside" % (short(key), i), not quiet, site=fn.site(lp[0].node), cfg=fx.cfg, detail=str(quiet))
+    ctx.anchor("R13.7", "for loops over request contexts", n, 4, cfg=fx.cfg)
+
+
 def r13_5(ctx, fx):
     # the future pushed in on_outbound_substream yields tuples whose request id is the captured one
     keys = fx.find(r"^protocol::request_response::RequestResponseProtocol::on_outbound_substream::\{closure#0\}::\{closure#\d+\}$")
@@ -318,3 +339,4 @@ def run(ctx):
     r13_3(ctx, fx)
     r13_4(ctx, fx)
     r13_5(ctx, fx)
+    r13_7(ctx, fx)
